@@ -618,7 +618,42 @@ def r10(ctx):
         raise AnalysisBroken('C08.R10: the walk over the key bucket in replace mode was not recognised')
 
 
+def r13(ctx):
+    ctx.rule('C08.R13', 'the longest matching ID is found also for a destination wildcard: in MessageMap::find(master, ...) the probe '
+             'over ID lengths starts at m_maxIdLength; the smaller m_maxBroadcastIdLength is chosen only for a broadcast telegram '
+             'that is NOT looked up with anyDestination (the key of such a lookup carries SYN as destination and addresses the '
+             'definitions without destination, which m_maxBroadcastIdLength does not count)', minimum=1)
+    fb = ctx.fb
+    fns = [f for f in fb.fns('ebusd::MessageMap::find') if 'MasterSymbolString' in f.sig]
+    if not fns:
+        raise AnalysisBroken('C08.R13: MessageMap::find(master, ...) not found')
+    fn = fns[0]
+    ctx.touch(fn)
+    anyd = [p_['name'] for p_ in fn.params if p_['name'].lower().startswith('anydest')]
+    if not anyd:
+        raise AnalysisBroken('C08.R13: parameter anyDestination of find not found')
+    n = 0
+    for x, v in sorted(fn.nodes.items()):
+        if v['k'] != 'ConditionalOperator':
+            continue
+        for side, pol in (('then', True), ('else', False)):
+            if fn.key(v[side]) != 'this.m_maxBroadcastIdLength':
+                continue
+            n += 1
+            dnf = facts.implied(fn, v['cond'], pol)
+            ok = bool(dnf) and all(any(facts.atom_key(fn, a) == (anyd[0], False) for a in cj) for cj in dnf)
+            ctx.ob('C08.R13', fn, x, ok, 'choice of the broadcast maximum as start length', 'only when anyDestination is false: %s' % ok)
+    for nid, d, rhs, op, lhs in fn.assignments():
+        if rhs is not None and fn.key(rhs) == 'this.m_maxBroadcastIdLength' and fn.block_of(nid) is not None:
+            n += 1
+            ok = fn.needs_one_of(nid, [(anyd[0], False)])
+            ctx.ob('C08.R13', fn, nid, ok, 'choice of the broadcast maximum as start length', 'only when anyDestination is false: %s' % ok)
+    if n < 1:
+        raise AnalysisBroken('C08.R13: the use of m_maxBroadcastIdLength in find was not recognised')
+
+
 def run(ctx):
+    r13(ctx)
     import rules.common as _cmm
     ctx.rule('C08.R12', 'a mask for a 64 bit value is computed in 64 bits: where the sources of this property combine a 64 bit integer (a key) by &, | or ^ with an operand the compiler widens from 32 bits or less, that operand contains no shift or complement with a non-constant value - ~(0xff << 8*(3-len)) in int clears the whole upper half of the key (length, source, destination, command) for the last shortening', minimum=12)
     _cmm.wide_mask_rule(ctx, 'C08.R12', lambda f: f.relfile.startswith(('src/lib/ebus/message.',)), 12)
